@@ -57,7 +57,13 @@ int main(int argc, char *argv[])
           for (auto &c : js)
             if (c == '\n' || c == '\r')
               c = ' ';
-          res = "T " + js;
+          std::ostringstream ot;
+          s->extract_timelines().to_json(ot);
+          std::string tl = ot.str();
+          for (auto &c : tl)
+            if (c == '\n' || c == '\r')
+              c = ' ';
+          res = "T " + js + " \tTL " + tl;
         }
         else
           res = "F";
